@@ -6,7 +6,10 @@ import (
 )
 
 // Rng is the only source of choices; it is used before the bubble starts.
-type Rng struct{ *rand.Rand }
+type Rng struct {
+	*rand.Rand
+	matrixCell int // C11: enumerated cell to generate (-1 = random)
+}
 
 // NewRng derives the generator of run i of a family from the batch seed.
 func NewRng(seed uint64, family string, i uint64) *Rng {
@@ -15,7 +18,7 @@ func NewRng(seed uint64, family string, i uint64) *Rng {
 		h ^= uint64(b)
 		h *= 1099511628211
 	}
-	return &Rng{rand.New(rand.NewPCG(seed^h, i*0x9E3779B97F4A7C15+h))}
+	return &Rng{Rand: rand.New(rand.NewPCG(seed^h, i*0x9E3779B97F4A7C15+h)), matrixCell: -1}
 }
 
 func (r *Rng) chance(p float64) bool { return r.Float64() < p }
@@ -51,6 +54,9 @@ var topics = []string{"a", "a/x", "b", "c"}
 func Generate(prop string, seed uint64, i uint64) *Scenario {
 	fam := FamilyOf(prop, seed, i)
 	r := NewRng(seed, prop+"/"+fam, i)
+	if prop == "C11" && i < uint64(len(C11Matrix())) {
+		r.matrixCell = int(i) // the first runs of every batch are the complete matrix
+	}
 	var sc *Scenario
 	switch fam {
 	case "reconn":
